@@ -158,6 +158,69 @@ def invoke(state_dir, srcs, opts, fault=None):
     return rc, err, taken
 
 
+# ------------------------------------------------------------------ variable-font histories ------
+def _vf_write(d, present):
+    """two masters (three glyphs each, the second master's coordinates moved) + the TOML; `present` = glyph indices kept"""
+    import toml
+    from vmc.props import c18
+
+    masters, _ = c18.master_scenes({"scene": "three_glyphs", "variant": "translate", "masters": "two_default_min"})
+    cfg = {"output_file": "VF.ttf", "color_format": "glyf_colr_1", "axis": {"wght": {"name": "Weight", "default": 300}}, "master": {}}
+    seen = Path(WS) if namespaces_work() else d
+    for i, gl in enumerate(masters):
+        md = d / "src" / f"m{i}"
+        shutil.rmtree(md, ignore_errors=True)
+        md.mkdir(parents=True)
+        names = []
+        for j, g in enumerate(gl):
+            if j in present:
+                n = f"emoji_u{'_'.join('%04x' % c for c in g.cps)}.svg"
+                (md / n).write_text(g.svg())
+                names.append(str(seen / "src" / f"m{i}" / n))
+        cfg["master"][f"m{i}"] = {"style_name": f"M{i}", "position": {"wght": [300, 700][i]}, "srcs": names}
+    (d / "vf.toml").write_text(toml.dumps(cfg))
+
+
+def _vf_invoke(d):
+    from vmc.drive import cli
+    import shlex
+
+    if namespaces_work():
+        cmd = ["unshare", "-m", "sh", "-c", f"mount --bind {shlex.quote(str(d))} {WS} && cd {WS} && exec nanoemoji vf.toml"]
+    else:
+        cmd = ["nanoemoji", "vf.toml"]
+    r = subprocess.run(cmd, cwd=str(d), env=cli.env(), capture_output=True, text=True, timeout=900, start_new_session=True)
+    f = d / "build" / "VF.ttf"
+    return r.returncode, (r.stderr or "")[-300:], hashlib.sha256(f.read_bytes()).hexdigest() if f.exists() else None
+
+
+def exec_vf(case):
+    """a history of source sets of a two-master variable font on one build directory (the masters are written as UFO
+    *directories*, which a later run finds in place), compared with a clean build of the final set"""
+    from vmc.drive import cli
+
+    root = cli.mkscratch("c09vf")
+    try:
+        d = root / "w"
+        d.mkdir()
+        for present in case["sets"]:
+            _vf_write(d, set(present))
+            rc, err, got = _vf_invoke(d)
+            if rc != 0:
+                return [bad("C09.converges", f"variable-font history {case['sets']}: invocation exits {rc}: {err}")]
+        c = root / "clean"
+        c.mkdir()
+        _vf_write(c, set(case["sets"][-1]))
+        rc, err, want = _vf_invoke(c)
+        if rc != 0 or want is None:
+            return [{"status": "harness-error", "clause": "harness.vf", "detail": f"clean VF build fails: {err}"}]
+        if got != want:
+            return [bad("C09.converges", f"variable-font history of source sets {case['sets']}: VF.ttf differs from the clean build of the final set")]
+        return [ok("C09.state", "vf:" + "-".join(str(len(p)) for p in case["sets"]))]
+    finally:
+        shutil.rmtree(root, ignore_errors=True)
+
+
 def font_sha(state_dir):
     f = state_dir / "build" / "Font.ttf"
     return hashlib.sha256(f.read_bytes()).hexdigest() if f.exists() else None
@@ -262,6 +325,9 @@ def _sig(hist):
 def execute(case):
     """replay of a history from the empty directory"""
     from vmc.drive import cli
+
+    if case.get("kind") == "vf":
+        return exec_vf(case)
 
     root = cli.mkscratch("c09r")
     try:
@@ -377,6 +443,23 @@ def run(report, tier, only=None):
                 if st["dir"] != str(root / "states" / "s1"):
                     shutil.rmtree(st["dir"], ignore_errors=True)
             frontier = nxt
+        # variable-font histories: remove a glyph from every master, put it back, start small and grow
+        vf_cases = [{"kind": "vf", "sets": s_} for s_ in ([[0, 1, 2], [0, 1]], [[0, 1, 2], [0, 1], [0, 1, 2]], [[0, 1], [0, 1, 2]], [[0, 1, 2], [1, 2]])]
+        if tier == "quick":
+            vf_cases = vf_cases[:2]
+        for c_, vs in zip(vf_cases, pool.run_cases(exec_vf, vf_cases, timeout=1800, seed=report.seed, jobs=4, chunksize=1)):
+            n_states += 1
+            n_trans += len(c_["sets"]) + 1
+            for v in vs:
+                if v["status"] == "harness-error":
+                    raise HarnessError(v["detail"])
+                report.status[v["status"]] += 1
+                if v.get("fp"):
+                    report.fps[v["fp"]] += 1
+                if v["status"] == "violation":
+                    report.add_violation(v["clause"], c_, v["detail"])
+            report.evaluations += 1
+        report.extra["variable_font_histories"] = len(vf_cases)
         report.states += n_states
         report.transitions += n_trans
         report.executions += n_trans
